@@ -177,8 +177,8 @@ pub(super) fn range_piece(p: &mut Parser) -> CompletedMarker {
     integer(p).or_error(p, "expected integer or bitrange");
     if p.at_set(&[T![...], T![-]]) {
         p.eat();
-    }
-    if p.at(TokenKind::IntVal) {
+        integer(p).or_error(p, "expected integer value as end of range");
+    } else if p.at(TokenKind::IntVal) {
         integer(p).or_error(p, "expected integer value as end of range");
     }
     p.finish_node();
@@ -214,8 +214,10 @@ pub(super) fn slice_element(p: &mut Parser) -> CompletedMarker {
     value(p);
     if p.at_set(&[T![...], T![-]]) {
         p.eat();
+        value(p);
+    } else {
+        opt_value(p);
     }
-    opt_value(p);
     p.finish_node();
     CompletedMarker::Success
 }
